@@ -71,7 +71,8 @@ def replay_kani(prop, result, tier, scratch=None, watchdog_s=20):
     cand = [t for t in tests if t[0] != "cover"]
     if not cand:
         return {"reproduced": False, "detail": "Kani produced no concrete playback test for the failing check", "path": None}
-    is_term = bool(meta.get("termination")) and any("unwinding assertion" in d for d in fail_descs)
+    is_term = bool(meta.get("termination")) and any(
+        ("unwinding assertion" in d or "iteration budget exceeded" in d) for d in fail_descs)
     overflow_only = all("overflow" in d for d in fail_descs) if fail_descs else False
 
     # 2. native scratch without the container model
@@ -136,6 +137,135 @@ def replay_kani(prop, result, tier, scratch=None, watchdog_s=20):
     rep = any(o["outcome"] == "panicked" for o in outcomes)
     if is_term and any(o["outcome"] in ("watchdog", "memory-cap") for o in outcomes):
         rep = True
-    return {"reproduced": rep, "path": path, "outcomes": outcomes, "termination": is_term,
-            "overflow_only": overflow_only,
-            "detail": "; ".join(f"{o['test']}:{o['outcome']}" for o in outcomes)}
+    res = {"reproduced": rep, "path": path, "outcomes": outcomes, "termination": is_term,
+           "overflow_only": overflow_only,
+           "detail": "; ".join(f"{o['test']}:{o['outcome']}" for o in outcomes)}
+    if rep and meta.get("lift", "").strip() == "name":
+        # unit-level reader state -> whole datagram through DnsIncoming::new (DESIGN 2.6)
+        lifted = []
+        for kind, desc, fn, tcode in cand:
+            vals = _concrete_vals(tcode)
+            if len(vals) < 2:
+                continue
+            window = [b for v in vals[:-1] for b in v]  # [u8; N] arrives as N one-byte values
+            off = int.from_bytes(bytes(vals[-1]), "little")
+            dg = lift_name_window(window, off)
+            lr = run_lifted(dg, f"{prop}-{h}-{hsh}", watchdog_s)
+            lr["datagram_hex"] = bytes(dg).hex()
+            lifted.append(lr)
+        res["lifted"] = lifted
+        ok = any(l["reproduced"] for l in lifted)
+        if not ok:
+            res["reproduced"] = False
+            res["detail"] += "; unit-level state reproduces but its lifted datagram does not: " + \
+                "; ".join(l.get("detail", "") for l in lifted)
+        else:
+            res["detail"] += "; lifted datagram through DnsIncoming::new: " + \
+                "; ".join(l.get("detail", "") for l in lifted)
+            with open(path, "a") as f:
+                for l in lifted:
+                    f.write("// lifted datagram (hex) reproducing through DnsIncoming::new: %s  [%s]\n"
+                            % (l["datagram_hex"], l.get("detail", "")))
+    return res
+
+
+def _concrete_vals(code):
+    return [[int(x) for x in m.group(1).split(",") if x.strip()] for m in re.finditer(r"vec!\[([\d, ]*)\],", code)]
+
+
+LIFT_SHIFT = 23  # 12-byte header + RR1 (root name, TYPE, CLASS, TTL, RDLENGTH)
+
+
+def lift_name_window(window, off):
+    """Embed a reader state (buffer `window`, cursor `off`) into a well-formed datagram:
+    header(AN=2) | RR1 = root, TXT, IN, ttl 120, RDATA = window[..off] | window[off..] | padding.
+    Compression pointers on the path the reader walks from `off` are rebased by LIFT_SHIFT."""
+    w = list(window)
+    seen = set()
+    pos = off
+    steps = 0
+    while 0 <= pos < len(w) and steps < 4 * len(w) + 8:
+        steps += 1
+        b = w[pos]
+        if b == 0:
+            break
+        if b & 0xC0 == 0xC0:
+            if pos + 1 >= len(w) or pos in seen:
+                break
+            seen.add(pos)
+            tgt = ((b & 0x3F) << 8) | w[pos + 1]
+            new = tgt + LIFT_SHIFT
+            w[pos] = 0xC0 | ((new >> 8) & 0x3F)
+            w[pos + 1] = new & 0xFF
+            pos = tgt
+        elif b & 0xC0 == 0:
+            pos += 1 + b
+        else:
+            break
+    hdr = [0, 0, 0x84, 0, 0, 0, 0, 2, 0, 0, 0, 0]
+    rr1 = [0, 0, 16, 0, 1, 0, 0, 0, 120, (off >> 8) & 0xFF, off & 0xFF]
+    tail = [0, 1, 0, 1, 0, 0, 0, 120, 0, 4, 10, 0, 0, 1]  # lets a terminating name finish as an A record
+    return hdr + rr1 + w + tail
+
+
+LIFT_TEST = """
+#[cfg(test)]
+mod verif_lifted {
+    #[test]
+    fn lifted_datagram() {
+        let data: Vec<u8> = vec![%s];
+        let r = super::DnsIncoming::new(data, crate::InterfaceId::default());
+        // decoding must end with Ok or Err; reaching this line is the pass criterion
+        let _ = r.is_ok();
+    }
+}
+"""
+
+
+def run_lifted(datagram, tag, watchdog_s=20):
+    """Native `cargo test` (no Kani, no stubs, real HashMap) of DnsIncoming::new on the datagram,
+    dev and release profile, under a watchdog and a 2 GB address-space cap."""
+    rs = overlay.make_scratch("lift-" + tag, harness=False)
+    env = dict(os.environ)
+    env["CARGO_NET_OFFLINE"] = "true"
+    env["CARGO_TARGET_DIR"] = os.path.join(kanirun.CACHE, "native-target")
+    outs = []
+    try:
+        with open(os.path.join(rs, "src", "dns_parser.rs"), "a") as f:
+            f.write(LIFT_TEST % ", ".join(str(b) for b in datagram))
+        for prof in ([], ["--release"]):
+            b = subprocess.run(["cargo", "test", "--offline", "--lib", "--no-run"] + prof, cwd=rs, env=env,
+                               capture_output=True, text=True, timeout=1200)
+            if b.returncode != 0:
+                outs.append({"profile": prof or ["dev"], "outcome": "build-failed", "tail": b.stderr[-800:]})
+                continue
+            pr = subprocess.Popen(["cargo", "test", "--offline", "--lib"] + prof + ["--", "dns_parser::verif_lifted::lifted_datagram", "--exact"],
+                                  cwd=rs, env=env, stdout=subprocess.PIPE, stderr=subprocess.STDOUT, text=True,
+                                  preexec_fn=_limits(2))
+            try:
+                out, _ = pr.communicate(timeout=watchdog_s)
+                hung = False
+            except subprocess.TimeoutExpired:
+                hung = True
+                try:
+                    os.killpg(pr.pid, signal.SIGKILL)
+                except ProcessLookupError:
+                    pass
+                out, _ = pr.communicate()
+            if hung:
+                oc = "watchdog(no return in %ds)" % watchdog_s
+            elif "memory allocation of" in out or "SIGABRT" in out or "SIGSEGV" in out:
+                oc = "memory-cap"
+            elif "panicked at" in out:
+                mm = re.search(r"panicked at ([^\n]*)\n([^\n]*)", out)
+                oc = "panicked: " + ((mm.group(1) + " " + mm.group(2))[:200] if mm else "")
+            elif "1 passed" in out:
+                oc = "returned"
+            else:
+                oc = "unknown: " + out[-300:]
+            outs.append({"profile": (prof or ["dev"])[0], "outcome": oc})
+    finally:
+        overlay.remove_scratch(rs)
+    rep = any(o["outcome"].startswith(("watchdog", "memory-cap", "panicked")) for o in outs)
+    return {"reproduced": rep, "outcomes": outs,
+            "detail": ", ".join("%s:%s" % (o["profile"], o["outcome"]) for o in outs)}
